@@ -110,7 +110,7 @@ func c07Scenario(p c07Params) *explore.Scenario {
 		return out, viol, res
 	}
 	sc.Filter = func(pt *vrt.Point, alt int) bool {
-		if pt.Alts[alt].Kind == vrt.AltDemote {
+		if pt.Alts[alt].Kind != vrt.AltRun {
 			return true
 		}
 		switch pt.Infos[alt].Kind {
